@@ -591,7 +591,7 @@ def build_entry(t, f, off, size, ctime, mtime, atime, comment, junk=None, commen
 
 def build_file(n, live, *, version=1, hdr_times=(1000000000, 1000000001, 1000000002),
                unused_times=(1000000003, 1000000004, 1000000005), unused_comment="",
-               junk=None, hole_at=None):
+               junk=None, hole_at=None, gap=0):
     """A compact, well-formed file: `live` = list of dicts(type, format, payload, comment,
     ctime, mtime, atime).  hole_at=i inserts an unused slot before live block i (C07)."""
     w = W(junk)
@@ -611,6 +611,9 @@ def build_file(n, live, *, version=1, hdr_times=(1000000000, 1000000001, 1000000
         if s is None:
             out += build_entry(0, 0, off, 0, *unused_times, unused_comment, junk)
         else:
+            if gap:   # other software may leave unused bytes between blocks (still well-formed: ranges disjoint, inside the file)
+                body += bytes((0xA0 + i) % 256 for i in range(gap))
+                off += gap
             out += build_entry(s["type"], s["format"], off, len(s["payload"]), s["ctime"], s["mtime"],
                                s["atime"], s["comment"], junk, s.get("comment_raw"))
             body += s["payload"]
